@@ -358,5 +358,8 @@ func runC02(args []string) {
 			total += t.Close()
 		}
 	}
+	if *only == "" {
+		total += runC02Edwards(*out, *seed, *tier)
+	}
 	fmt.Printf("c02: %d events\n", total)
 }
